@@ -1,5 +1,527 @@
 import QModel.Core
-/-! C18 — model (not built yet) -/
+/-!
+# C18 — Lindbladian generators (model of quara/objects/effective_lindbladian.py and the
+sparse tables `basis_basisconjugate_T_sparse_from_1` / `basishermitian_basis_T_from_1` of
+quara/objects/composite_system.py)
+
+Two layers.
+
+* A scalar-polymorphic **core** (`convertHs`, `calcHMat`, `calcJMat`, `calcKMat`, the part builders,
+  `jMatFromKMat`, the rebuild functions, the jump-operator builders, `projEq`, `expSeries`) over any type
+  with the core arithmetic classes plus a conjugation (`HasConj`) and an imaginary unit (`HasI`);
+  it is executed at `CRat` (complex rationals: every float is one) and reasoned about at Mathlib fields.
+* A `CRat`/`Rat`-specific **wrapper** layer with the float-threshold logic of the code as it is:
+  the Hermitian guards `_check_*_mat`, `_truncate_hs`, `is_tp`, `is_cp`, `calc_proj_ineq_constraint`.
+
+The model mirrors the code *as it is*: `calcJMat` enumerates `basis[1:]` with `delta = 1` on the first
+enumerated element (§5-D12), `jPartCbFromJump` uses the jump operators themselves (not `c†c`).
+`calcJMatFixed` is the proposed patch (full basis), used by the `_partial` theorems.
+-/
 namespace QM.C18
-def handle (_args : List String) : Option String := none
+open QM
+
+class HasConj (K : Type) where conj : K → K
+class HasI (K : Type) where ii : K
+export HasConj (conj)
+export HasI (ii)
+
+/-! ## complex rationals -/
+structure CRat where
+  re : Rat
+  im : Rat
+deriving DecidableEq, Repr
+
+namespace CRat
+instance : Add CRat := ⟨fun a b => ⟨a.re + b.re, a.im + b.im⟩⟩
+instance : Sub CRat := ⟨fun a b => ⟨a.re - b.re, a.im - b.im⟩⟩
+instance : Neg CRat := ⟨fun a => ⟨-a.re, -a.im⟩⟩
+instance : Mul CRat := ⟨fun a b => ⟨a.re * b.re - a.im * b.im, a.re * b.im + a.im * b.re⟩⟩
+instance : Zero CRat := ⟨⟨0, 0⟩⟩
+instance : One CRat := ⟨⟨1, 0⟩⟩
+instance : NatCast CRat := ⟨fun n => ⟨(n : Rat), 0⟩⟩
+instance : Div CRat := ⟨fun a b =>
+  let n := b.re * b.re + b.im * b.im
+  ⟨(a.re * b.re + a.im * b.im) / n, (a.im * b.re - a.re * b.im) / n⟩⟩
+instance : HasConj CRat := ⟨fun a => ⟨a.re, -a.im⟩⟩
+instance : HasI CRat := ⟨⟨0, 1⟩⟩
+def ofRat (q : Rat) : CRat := ⟨q, 0⟩
+/-- squared modulus -/
+def abs2 (a : CRat) : Rat := a.re * a.re + a.im * a.im
+end CRat
+
+instance : HasConj Rat := ⟨id⟩
+
+/-! ## index helpers: `Fin (d*d)` as row-major pairs -/
+section idx
+variable {d : Nat}
+
+def pr (i j : Fin d) : Fin (d * d) :=
+  ⟨i.val * d + j.val, by
+    have h1 : i.val * d + j.val < (i.val + 1) * d := by
+      rw [Nat.add_mul, Nat.one_mul]; exact Nat.add_lt_add_left j.isLt _
+    exact Nat.lt_of_lt_of_le h1 (Nat.mul_le_mul_right d i.isLt)⟩
+
+def p1 (r : Fin (d * d)) : Fin d := ⟨r.val / d, Nat.div_lt_of_lt_mul r.isLt⟩
+
+def p2 (r : Fin (d * d)) : Fin d :=
+  ⟨r.val % d, Nat.mod_lt _ (Nat.pos_of_ne_zero (by
+    intro h; have := r.isLt; subst h; simp at this))⟩
+
+/-- index `a+1` of the full basis for an index `a` of `basis[1:]` -/
+def suc (a : Fin (d * d - 1)) : Fin (d * d) := ⟨a.val + 1, by have := a.isLt; omega⟩
+end idx
+
+/-! ## polymorphic core -/
+section core
+variable {K : Type} [Add K] [Mul K] [Neg K] [Sub K] [Zero K] [One K] [Div K] [NatCast K]
+  [HasConj K] [HasI K] {d m n : Nat}
+
+/-- entrywise sum of a family of matrices -/
+def msum (k : Nat) (f : Fin k → Mat K m n) : Mat K m n :=
+  let fs : Vector (Mat K m n) k := Vector.ofFn f   -- materialise the summands once
+  Mat.ofFn fun i j => fsum k fun a => (fs[a]).get i j
+
+/-- `np.trace(A @ B)` -/
+def trMul (A B : Mat K n n) : K := fsum n fun r => fsum n fun c => A.get r c * B.get c r
+
+def conjM (A : Mat K m n) : Mat K m n := Mat.ofFn fun i j => conj (A.get i j)
+/-- conjugate transpose -/
+def adj (A : Mat K m n) : Mat K n m := Mat.ofFn fun i j => conj (A.get j i)
+
+/-- `np.kron` of two `d×d` matrices -/
+def kron (A B : Mat K d d) : Mat K (d * d) (d * d) :=
+  Mat.ofFn fun r c => A.get (p1 r) (p1 c) * B.get (p2 r) (p2 c)
+
+/-- row-major `flatten` / `reshape` -/
+def flatten (A : Mat K d d) : Vec K (d * d) := Vec.ofFn fun r => A.get (p1 r) (p2 r)
+def unflatten (v : Vec K (d * d)) : Mat K d d := Mat.ofFn fun i j => v.get (pr i j)
+
+/-- `np.vdot(a, b)` on matrices -/
+def vdot (A B : Mat K d d) : K := fsum d fun i => fsum d fun j => conj (A.get i j) * B.get i j
+
+abbrev Basis (K : Type) (d : Nat) := Vec (Mat K d d) (d * d)
+
+/-- `get_comp_basis(dim)` (row major) -/
+def compBasis (K : Type) [Zero K] [One K] (d : Nat) : Basis K d :=
+  Vec.ofFn fun r => Mat.ofFn fun i j => if i = p1 r ∧ j = p2 r then 1 else 0
+
+/-- `U[α,β] = vdot(to_basis[α], from_basis[β])` -/
+def transMat (fromB toB : Basis K d) : Mat K (d * d) (d * d) :=
+  Mat.ofFn fun a b => vdot (toB.get a) (fromB.get b)
+
+/-- `convert_hs(from_hs, from_basis, to_basis) = U @ from_hs @ U.conj().T` -/
+def convertHs (hs : Mat K (d * d) (d * d)) (fromB toB : Basis K d) : Mat K (d * d) (d * d) :=
+  let U := transMat fromB toB
+  (U.mul hs).mul (adj U)
+
+/-- `lindbladian_cb = convert_hs(self.hs, basis, comp_basis)` -/
+def toComp (B : Basis K d) (hs : Mat K (d * d) (d * d)) : Mat K (d * d) (d * d) :=
+  convertHs hs B (compBasis K d)
+def toHerm (B : Basis K d) (cb : Mat K (d * d) (d * d)) : Mat K (d * d) (d * d) :=
+  convertHs cb (compBasis K d) B
+
+def two : K := 1 + 1
+def dK (d : Nat) : K := (d : K)
+
+/-- coefficient of `B_α` in `calc_h_mat`: `1j/(2 dim) · tr(L_cb (B_α⊗1 − 1⊗conj B_α))` -/
+def hCoef (B : Basis K d) (L : Mat K (d * d) (d * d)) (a : Fin (d * d)) : K :=
+  let Ba := B.get a
+  ii / (two * dK d) * trMul L ((kron Ba Mat.one).sub (kron Mat.one (conjM Ba)))
+
+/-- coefficient of `B_α` in `calc_j_mat`: `1/(2 dim (1+δ)) · tr(L_cb (B_α⊗1 + 1⊗conj B_α))`;
+`first` says whether this is the first enumerated element (`delta = 1`). -/
+def jCoef (B : Basis K d) (L : Mat K (d * d) (d * d)) (a : Fin (d * d)) (first : Bool) : K :=
+  let Ba := B.get a
+  let delta : K := if first then 1 else 0
+  1 / (two * dK d * (1 + delta)) * trMul L ((kron Ba Mat.one).add (kron Mat.one (conjM Ba)))
+
+/-- `calc_h_mat` on the comp-basis generator: the loop runs over the whole basis -/
+def calcHMatCb (B : Basis K d) (L : Mat K (d * d) (d * d)) : Mat K d d :=
+  msum (d * d) fun a => (B.get a).smul (hCoef B L a)
+
+/-- `calc_j_mat` as coded: `for alpha, B_alpha in enumerate(basis[1:])`, `delta = 1 if alpha == 0`:
+the identity component is never visited and the coefficient of `basis[1]` is halved. -/
+def calcJMatCb (B : Basis K d) (L : Mat K (d * d) (d * d)) : Mat K d d :=
+  msum (d * d - 1) fun a => (B.get (suc a)).smul (jCoef B L (suc a) (a.val = 0))
+
+/-- proposed patch of `calc_j_mat`: enumerate the whole basis (`delta` on the identity element). -/
+def calcJMatFixedCb (B : Basis K d) (L : Mat K (d * d) (d * d)) : Mat K d d :=
+  msum (d * d) fun a => (B.get a).smul (jCoef B L a (a.val = 0))
+
+/-- `calc_k_mat`: `k[α,β] = tr(L_cb · B_{α+1} ⊗ conj B_{β+1})` -/
+def calcKMatCb (B : Basis K d) (L : Mat K (d * d) (d * d)) : Mat K (d * d - 1) (d * d - 1) :=
+  Mat.ofFn fun a b => trMul L (kron (B.get (suc a)) (conjM (B.get (suc b))))
+
+/-- the methods start with `lindbladian_cb = convert_hs(self.hs, basis, comp_basis)` -/
+def calcHMat (B : Basis K d) (hs : Mat K (d * d) (d * d)) : Mat K d d := calcHMatCb B (toComp B hs)
+def calcJMat (B : Basis K d) (hs : Mat K (d * d) (d * d)) : Mat K d d := calcJMatCb B (toComp B hs)
+def calcJMatFixed (B : Basis K d) (hs : Mat K (d * d) (d * d)) : Mat K d d :=
+  calcJMatFixedCb B (toComp B hs)
+def calcKMat (B : Basis K d) (hs : Mat K (d * d) (d * d)) : Mat K (d * d - 1) (d * d - 1) :=
+  calcKMatCb B (toComp B hs)
+
+/-- `_calc_h_part_from_h_mat` -/
+def hPart (h : Mat K d d) : Mat K (d * d) (d * d) :=
+  ((kron h Mat.one).sub (kron Mat.one (conjM h))).smul (-ii)
+
+/-- `_calc_j_part_from_j_mat` -/
+def jPart (j : Mat K d d) : Mat K (d * d) (d * d) :=
+  (kron j Mat.one).add (kron Mat.one (conjM j))
+
+/-- `_calc_k_part_from_k_mat` (sparse table `basis_basisconjugate_T_sparse_from_1 · k.flatten()`):
+`Σ_{a,b} k[a,b] · B_{a+1} ⊗ conj B_{b+1}` -/
+def kPart (B : Basis K d) (k : Mat K (d * d - 1) (d * d - 1)) : Mat K (d * d) (d * d) :=
+  msum (d * d - 1) fun a => msum (d * d - 1) fun b =>
+    (kron (B.get (suc a)) (conjM (B.get (suc b)))).smul (k.get a b)
+
+/-- `_calc_j_mat_from_k_mat` (table `basishermitian_basis_T_from_1`):
+`−1/2 · Σ_{a,b} k[a,b] · B_{b+1}† B_{a+1}` -/
+def jMatFromKMat (B : Basis K d) (k : Mat K (d * d - 1) (d * d - 1)) : Mat K d d :=
+  (msum (d * d - 1) fun a => msum (d * d - 1) fun b =>
+    ((adj (B.get (suc b))).mul (B.get (suc a))).smul (k.get a b)).smul (-(1 / two))
+
+/-- comp-basis generator of `generate_hs_from_hjk` before conversion -/
+def cbFromHjk (B : Basis K d) (h j : Mat K d d) (k : Mat K (d * d - 1) (d * d - 1)) :
+    Mat K (d * d) (d * d) :=
+  ((hPart h).add (jPart j)).add (kPart B k)
+
+def cbFromH (h : Mat K d d) : Mat K (d * d) (d * d) := hPart h
+
+def cbFromHk (B : Basis K d) (h : Mat K d d) (k : Mat K (d * d - 1) (d * d - 1)) :
+    Mat K (d * d) (d * d) :=
+  ((hPart h).add (jPart (jMatFromKMat B k))).add (kPart B k)
+
+def cbFromK (B : Basis K d) (k : Mat K (d * d - 1) (d * d - 1)) : Mat K (d * d) (d * d) :=
+  (jPart (jMatFromKMat B k)).add (kPart B k)
+
+/-- sum of a list of matrices (`reduce(add, terms)`; the empty list is a `TypeError`) -/
+def lsumM : List (Mat K m n) → Option (Mat K m n)
+  | [] => none
+  | x :: xs => some (xs.foldl Mat.add x)
+
+/-- `generate_j_part_cb_from_jump_operators` as coded: the operators themselves enter, not `c†c`. -/
+def jPartCbFromJump (cs : List (Mat K d d)) : Option (Mat K (d * d) (d * d)) :=
+  (lsumM (cs.map fun c => (kron c Mat.one).add (kron Mat.one (conjM c)))).map
+    fun s => s.smul (-(1 / two))
+
+/-- `generate_k_part_cb_from_jump_operators` -/
+def kPartCbFromJump (cs : List (Mat K d d)) : Option (Mat K (d * d) (d * d)) :=
+  lsumM (cs.map fun c => kron c (conjM c))
+
+/-- `generate_d_part_cb_from_jump_operators` -/
+def dPartCbFromJump (cs : List (Mat K d d)) : Option (Mat K (d * d) (d * d)) := do
+  let j ← jPartCbFromJump cs
+  let k ← kPartCbFromJump cs
+  pure (j.add k)
+
+/-- what the GKSL equation prescribes for the anti-commutator part: `−1/2 Σ (c†c ⊗ 1 + 1 ⊗ conj(c†c))` -/
+def jPartCbFromJumpGksl (cs : List (Mat K d d)) : Option (Mat K (d * d) (d * d)) :=
+  (lsumM (cs.map fun c =>
+      let g := (adj c).mul c
+      (kron g Mat.one).add (kron Mat.one (conjM g)))).map
+    fun s => s.smul (-(1 / two))
+
+/-- the GKSL dissipator `Σ_c (c ⊗ conj c − ½(c†c ⊗ 1 + 1 ⊗ conj(c†c)))` — what the property prescribes -/
+def dPartCbFromJumpGksl (cs : List (Mat K d d)) : Option (Mat K (d * d) (d * d)) := do
+  let j ← jPartCbFromJumpGksl cs
+  let k ← kPartCbFromJump cs
+  pure (j.add k)
+
+/-- action of a comp-basis superoperator on a matrix: `unvec(L_cb · vec ρ)` -/
+def act (L : Mat K (d * d) (d * d)) (rho : Mat K d d) : Mat K d d :=
+  unflatten (L.mulVec (flatten rho))
+
+/-- `calc_proj_eq_constraint`: `new_hs[0, :] = 0` -/
+def projEq {R : Type} [Zero R] (hs : Mat R n n) : Mat R n n :=
+  Mat.ofFn fun i j => if i.val = 0 then 0 else hs.get i j
+
+end core
+
+/-! ## truncated exponential series (independent reference for `to_gate`'s `expm`) -/
+section expo
+variable {R : Type} [Add R] [Mul R] [Zero R] [One R] [Div R] [NatCast R] {n : Nat}
+
+/-- `(term_k, sum_{j≤k} term_j)` with `term_k = L^k / k!` -/
+def expLoop (L : Mat R n n) : Nat → Mat R n n × Mat R n n
+  | 0 => (Mat.one, Mat.one)
+  | k + 1 =>
+    let (t, s) := expLoop L k
+    let t' := (t.mul L).smul (1 / ((k + 1 : Nat) : R))
+    (t', s.add t')
+
+def expSeries (L : Mat R n n) (N : Nat) : Mat R n n := (expLoop L N).2
+end expo
+
+/-! ## float-threshold layer (`CRat`, `Rat`) -/
+
+inductive Err
+  | notHermitianH | notHermitianJ | notHermitianK | imagPart | emptyJump
+deriving Repr, DecidableEq
+
+def Err.toString : Err → String
+  | .notHermitianH => "notHermitianH" | .notHermitianJ => "notHermitianJ"
+  | .notHermitianK => "notHermitianK" | .imagPart => "imagPart" | .emptyJump => "emptyJump"
+
+def rabs (q : Rat) : Rat := if q < 0 then -q else q
+
+/-- `mutil.is_hermitian(matrix, atol)`: `|a − conj(aᵀ)| ≤ atol` entrywise (complex modulus, `rtol = 0`),
+decided exactly through squares. -/
+def isHermitian {n : Nat} (A : Mat CRat n n) (atol : Rat) : Bool :=
+  (List.finRange n).all fun i => (List.finRange n).all fun j =>
+    decide (CRat.abs2 (A.get i j - conj (A.get j i)) ≤ atol * atol)
+
+/-- `_truncate_hs(hs, eps)`: imaginary parts below `eps` dropped, any surviving one is a `ValueError`;
+then real entries below `eps` in modulus are set to 0. -/
+def truncateHs {n : Nat} (A : Mat CRat n n) (eps : Rat) : Except Err (Mat Rat n n) :=
+  if (List.finRange n).any fun i => (List.finRange n).any fun j =>
+      let x := A.get i j
+      decide (¬ (rabs x.im < eps) ∧ x.im ≠ 0) then .error .imagPart
+  else .ok (Mat.ofFn fun i j =>
+      let x := (A.get i j).re
+      if rabs x < eps then 0 else x)
+
+def embed {m n : Nat} (A : Mat Rat m n) : Mat CRat m n := Mat.ofFn fun i j => CRat.ofRat (A.get i j)
+
+variable {d : Nat}
+
+/-- `generate_hs_from_hjk` -/
+def hsFromHjk (B : Basis CRat d) (h j : Mat CRat d d) (k : Mat CRat (d * d - 1) (d * d - 1))
+    (eps atol : Rat) : Except Err (Mat Rat (d * d) (d * d)) := do
+  if !isHermitian h atol then throw .notHermitianH
+  if !isHermitian j atol then throw .notHermitianJ
+  if !isHermitian k atol then throw .notHermitianK
+  truncateHs (toHerm B (cbFromHjk B h j k)) eps
+
+/-- `generate_hs_from_h` -/
+def hsFromH (B : Basis CRat d) (h : Mat CRat d d) (eps atol : Rat) :
+    Except Err (Mat Rat (d * d) (d * d)) := do
+  if !isHermitian h atol then throw .notHermitianH
+  truncateHs (toHerm B (cbFromH h)) eps
+
+/-- `generate_hs_from_hk` -/
+def hsFromHk (B : Basis CRat d) (h : Mat CRat d d) (k : Mat CRat (d * d - 1) (d * d - 1))
+    (eps atol : Rat) : Except Err (Mat Rat (d * d) (d * d)) := do
+  if !isHermitian h atol then throw .notHermitianH
+  if !isHermitian k atol then throw .notHermitianK
+  truncateHs (toHerm B (cbFromHk B h k)) eps
+
+/-- `generate_hs_from_k` -/
+def hsFromK (B : Basis CRat d) (k : Mat CRat (d * d - 1) (d * d - 1))
+    (eps atol : Rat) : Except Err (Mat Rat (d * d) (d * d)) := do
+  if !isHermitian k atol then throw .notHermitianK
+  truncateHs (toHerm B (cbFromK B k)) eps
+
+/-- hs of `generate_effective_lindbladian_from_jump_operators` (the two `_truncate_hs` calls compose
+to one because truncation is idempotent on its own output). -/
+def hsFromJump (B : Basis CRat d) (cs : List (Mat CRat d d)) (eps : Rat) :
+    Except Err (Mat Rat (d * d) (d * d)) :=
+  match dPartCbFromJump cs with
+  | none => .error .emptyJump
+  | some cb => do
+    let a ← truncateHs (toHerm B cb) eps
+    truncateHs (embed a) eps
+
+/-- `calc_?_part(mode_basis)`: comp basis = raw complex matrix, hermitian basis = converted and truncated -/
+def partHerm (B : Basis CRat d) (cb : Mat CRat (d * d) (d * d)) (eps : Rat) :
+    Except Err (Mat Rat (d * d) (d * d)) :=
+  truncateHs (toHerm B cb) eps
+
+/-- `is_tp`: `np.allclose(hs[0], 0, atol, rtol=0)` -/
+def isTp {n : Nat} (hs : Mat Rat n n) (atol : Rat) : Bool :=
+  (List.finRange n).all fun i => (List.finRange n).all fun j =>
+    decide (i.val ≠ 0 ∨ rabs (hs.get i j) ≤ atol)
+
+/-- `mutil.is_positive_semidefinite(k, atol)` with the `eigvalsh` result as a parameter:
+Hermitian within `atol`, and every eigenvalue not within `atol` of 0 is `≥ 0`. -/
+def isPsdVerdict {n : Nat} (k : Mat CRat n n) (eigs : List Rat) (atol : Rat) : Bool :=
+  isHermitian k atol && eigs.all fun e => decide (rabs e ≤ atol ∨ 0 ≤ e)
+
+/-- `is_cp` -/
+def isCp (B : Basis CRat d) (hs : Mat Rat (d * d) (d * d)) (eigs : List Rat) (atol : Rat) : Bool :=
+  isPsdVerdict (calcKMat B (embed hs)) eigs atol
+
+/-- numpy's `<` on complex scalars is lexicographic -/
+def cltZero (z : CRat) : Bool := decide (z.re < 0 ∨ (z.re = 0 ∧ z.im < 0))
+
+def diagC {n : Nat} (v : Vec CRat n) : Mat CRat n n := Mat.ofFn fun i j => if i = j then v.get i else 0
+
+/-- the clipped dissipator matrix of `calc_proj_ineq_constraint`:
+`eigenvecs @ diag(eigenvals with negatives zeroed) @ eigenvecs.T.conj()`; `(eigenvals, eigenvecs)` is
+numpy's `eig(k_mat)` result, a parameter. -/
+def clipK {n : Nat} (lam : Vec CRat n) (V : Mat CRat n n) : Mat CRat n n :=
+  let lam' : Vec CRat n := Vec.ofFn fun i => if cltZero (lam.get i) then 0 else lam.get i
+  (V.mul (diagC lam')).mul (adj V)
+
+/-- `calc_proj_ineq_constraint` (hs of the result); `calc_j_mat` is the coded one. -/
+def projIneq (B : Basis CRat d) (hs : Mat Rat (d * d) (d * d))
+    (lam : Vec CRat (d * d - 1)) (V : Mat CRat (d * d - 1) (d * d - 1)) (eps atol : Rat) :
+    Except Err (Mat Rat (d * d) (d * d)) :=
+  let e := embed hs
+  hsFromHjk B (calcHMat B e) (calcJMat B e) (clipK lam V) eps atol
+
+/-! ## driver -/
+
+def listToVec? {α : Type} (l : List α) (n : Nat) : Option (Vector α n) :=
+  if h : l.toArray.size = n then some ⟨l.toArray, h⟩ else none
+
+/-- consecutive chunks of length `k` -/
+def chunks {α : Type} (k : Nat) : Nat → List α → List (List α)
+  | 0, _ => []
+  | c + 1, l => l.take k :: chunks k c (l.drop k)
+
+def toMat? {α : Type} (l : List α) (m n : Nat) : Option (Mat α m n) := do
+  if l.length ≠ m * n then none
+  let rows ← (chunks n m l).mapM fun r => listToVec? r n
+  listToVec? rows m
+
+def pairUp : List Rat → Option (List CRat)
+  | [] => some []
+  | a :: b :: r => (pairUp r).map fun t => ⟨a, b⟩ :: t
+  | _ => none
+
+def parseCMat (s : String) (m n : Nat) : Option (Mat CRat m n) := do
+  let l ← parseList? parseRat? s
+  let c ← pairUp l
+  toMat? c m n
+
+def parseRMat (s : String) (m n : Nat) : Option (Mat Rat m n) := do
+  let l ← parseList? parseRat? s
+  toMat? l m n
+
+def parseCVec (s : String) (n : Nat) : Option (Vec CRat n) := do
+  let l ← parseList? parseRat? s
+  let c ← pairUp l
+  listToVec? c n
+
+/-- basis: `d*d` matrices of size `d×d`, concatenated -/
+def parseBasis (s : String) (d : Nat) : Option (Basis CRat d) := do
+  let l ← parseList? parseRat? s
+  let c ← pairUp l
+  if c.length ≠ d * d * (d * d) then none
+  let ms ← (chunks (d * d) (d * d) c).mapM fun r => toMat? r d d
+  listToVec? ms (d * d)
+
+/-- list of `d×d` matrices, concatenated (any count) -/
+def parseCMats (s : String) (d : Nat) : Option (List (Mat CRat d d)) := do
+  let l ← parseList? parseRat? s
+  let c ← pairUp l
+  if d = 0 then none
+  if c.length % (d * d) ≠ 0 then none
+  (chunks (d * d) (c.length / (d * d)) c).mapM fun r => toMat? r d d
+
+def matList {α : Type} {m n : Nat} (A : Mat α m n) : List α :=
+  (List.finRange m).flatMap fun i => (List.finRange n).map fun j => A.get i j
+
+def showCMat {m n : Nat} (A : Mat CRat m n) : String :=
+  showList showRat ((matList A).flatMap fun z => [z.re, z.im])
+
+def showRMat {m n : Nat} (A : Mat Rat m n) : String := showList showRat (matList A)
+
+def showExc {m n : Nat} (r : Except Err (Mat Rat m n)) : String :=
+  match r with
+  | .error e => s!"err {e.toString}"
+  | .ok A => s!"ok {showRMat A}"
+
+def handle (args : List String) : Option String :=
+  match args with
+  | ["ext", op, ds, bs, hss] => do
+      -- extraction from a (real) hs
+      let d ← parseNat? ds
+      let B ← parseBasis bs d
+      let hs ← parseRMat hss (d * d) (d * d)
+      let e := embed hs
+      match op with
+      | "hmat" => some s!"ok {showCMat (calcHMat B e)}"
+      | "jmat" => some s!"ok {showCMat (calcJMat B e)}"
+      | "jmatfix" => some s!"ok {showCMat (calcJMatFixed B e)}"
+      | "kmat" => some s!"ok {showCMat (calcKMat B e)}"
+      | "tocomp" => some s!"ok {showCMat (toComp B e)}"
+      | "hpartcb" => some s!"ok {showCMat (hPart (calcHMat B e))}"
+      | "jpartcb" => some s!"ok {showCMat (jPart (calcJMat B e))}"
+      | "kpartcb" => some s!"ok {showCMat (kPart B (calcKMat B e))}"
+      | _ => none
+  | ["part", op, ds, bs, hss, eps] => do
+      let d ← parseNat? ds
+      let B ← parseBasis bs d
+      let hs ← parseRMat hss (d * d) (d * d)
+      let eps ← parseRat? eps
+      let e := embed hs
+      match op with
+      | "hpart" => some (showExc (partHerm B (hPart (calcHMat B e)) eps))
+      | "jpart" => some (showExc (partHerm B (jPart (calcJMat B e)) eps))
+      | "kpart" => some (showExc (partHerm B (kPart B (calcKMat B e)) eps))
+      | "dpart" => some (showExc (partHerm B ((jPart (calcJMat B e)).add (kPart B (calcKMat B e))) eps))
+      | _ => none
+  | ["fromhjk", ds, bs, h, j, k, eps, atol] => do
+      let d ← parseNat? ds
+      let B ← parseBasis bs d
+      let h ← parseCMat h d d
+      let j ← parseCMat j d d
+      let k ← parseCMat k (d * d - 1) (d * d - 1)
+      some (showExc (hsFromHjk B h j k (← parseRat? eps) (← parseRat? atol)))
+  | ["fromh", ds, bs, h, eps, atol] => do
+      let d ← parseNat? ds
+      let B ← parseBasis bs d
+      let h ← parseCMat h d d
+      some (showExc (hsFromH B h (← parseRat? eps) (← parseRat? atol)))
+  | ["fromhk", ds, bs, h, k, eps, atol] => do
+      let d ← parseNat? ds
+      let B ← parseBasis bs d
+      let h ← parseCMat h d d
+      let k ← parseCMat k (d * d - 1) (d * d - 1)
+      some (showExc (hsFromHk B h k (← parseRat? eps) (← parseRat? atol)))
+  | ["fromk", ds, bs, k, eps, atol] => do
+      let d ← parseNat? ds
+      let B ← parseBasis bs d
+      let k ← parseCMat k (d * d - 1) (d * d - 1)
+      some (showExc (hsFromK B k (← parseRat? eps) (← parseRat? atol)))
+  | ["jfromk", ds, bs, k] => do
+      let d ← parseNat? ds
+      let B ← parseBasis bs d
+      let k ← parseCMat k (d * d - 1) (d * d - 1)
+      some s!"ok {showCMat (jMatFromKMat B k)}"
+  | ["jump", ds, bs, cs, eps] => do
+      let d ← parseNat? ds
+      let B ← parseBasis bs d
+      let cs ← if cs = "-" then some [] else parseCMats cs d
+      some (showExc (hsFromJump B cs (← parseRat? eps)))
+  | ["jumpparts", ds, cs] => do
+      let d ← parseNat? ds
+      let cs ← parseCMats cs d
+      match jPartCbFromJump cs, kPartCbFromJump cs with
+      | some j, some k => some s!"ok {showCMat j} {showCMat k}"
+      | _, _ => some "err emptyJump"
+  | ["istp", ns, hss, atol] => do
+      let n ← parseNat? ns
+      let hs ← parseRMat hss n n
+      some s!"ok {isTp hs (← parseRat? atol)}"
+  | ["iscp", ds, bs, hss, eigs, atol] => do
+      let d ← parseNat? ds
+      let B ← parseBasis bs d
+      let hs ← parseRMat hss (d * d) (d * d)
+      let eigs ← parseList? parseRat? eigs
+      some s!"ok {isCp B hs eigs (← parseRat? atol)}"
+  | ["projeq", ns, hss] => do
+      let n ← parseNat? ns
+      let hs ← parseRMat hss n n
+      some s!"ok {showRMat (projEq hs)}"
+  | ["projineq", ds, bs, hss, lam, V, eps, atol] => do
+      let d ← parseNat? ds
+      let B ← parseBasis bs d
+      let hs ← parseRMat hss (d * d) (d * d)
+      let lam ← parseCVec lam (d * d - 1)
+      let V ← parseCMat V (d * d - 1) (d * d - 1)
+      some (showExc (projIneq B hs lam V (← parseRat? eps) (← parseRat? atol)))
+  | ["expseries", ns, hss, N] => do
+      let n ← parseNat? ns
+      let hs ← parseRMat hss n n
+      let N ← parseNat? N
+      some s!"ok {showRMat (expSeries hs N)}"
+  | ["act", ds, cb, rho] => do
+      let d ← parseNat? ds
+      let cb ← parseCMat cb (d * d) (d * d)
+      let rho ← parseCMat rho d d
+      some s!"ok {showCMat (act cb rho)}"
+  | _ => none
+
 end QM.C18
